@@ -82,6 +82,9 @@ define_ops! {
     as_le_slice = |a: U| a.as_le_slice().to_vec();
     as_le_bytes = |a: U| a.as_le_bytes().to_vec();
     as_le_bytes_trimmed = |a: U| a.as_le_bytes_trimmed().to_vec();
+    // the same value at BOTH addresses a u64-aligned type can have relative to 16 bytes (a field behind a u64 in a
+    // repr(C) record, every other element of an array): byte views must not depend on where the value lives
+    bytes_at_alignments = |a: U| { #[repr(C, align(16))] struct Off<T>(u64, T); #[repr(C, align(16))] struct Al<T>(T); let w = std::hint::black_box(Off(0xdead_beef, a)); let v = std::hint::black_box(Al(a)); let arr = std::hint::black_box([a, a, a]); let f = |x: &Uint<B, L>| (x.as_le_bytes_trimmed().to_vec(), x.to_le_bytes_trimmed_vec(), x.to_be_bytes_trimmed_vec(), x.as_le_slice().to_vec(), x.to_be_bytes_vec()); (f(&w.1), f(&v.0), f(&arr[1]), f(&arr[2]), ((&w.1 as *const Uint<B, L> as usize) % 16, (&v.0 as *const Uint<B, L> as usize) % 16)) };
     to_le_bytes = |a: U| a.to_le_bytes::<BY>();
     to_be_bytes = |a: U| a.to_be_bytes::<BY>();
     // wrong array size parameter: documented to panic at run time
@@ -316,6 +319,16 @@ fn model(bits: usize, op: Op, args: &[V]) -> Expect {
                 _ => trimmed.into_iter().rev().collect(),
             };
             is(V::Bytes(e)).nt(true)
+        }
+        bytes_at_alignments => {
+            let a = big(args[0].limbs());
+            let nb = (bits + 7) / 8;
+            let mut le = if a.is_zero() { vec![] } else { a.to_bytes_le() };
+            let trimmed = le.clone();
+            le.resize(nb, 0);
+            let one = V::T(vec![V::Bytes(trimmed.clone()), V::Bytes(trimmed.clone()), V::Bytes(trimmed.iter().rev().copied().collect()), V::Bytes(le.clone()), V::Bytes(le.iter().rev().copied().collect())]);
+            let off = 8; // [u64; 0] is u64-aligned too
+            is(V::T(vec![one.clone(), one.clone(), one.clone(), one, V::T(vec![V::n(off), V::n(0)])])).nt(true)
         }
         to_le_bytes_n1 | to_be_bytes_n1 | to_le_bytes_n9 | to_be_bytes_n16 => {
             let n = match op { to_le_bytes_n1 | to_be_bytes_n1 => 1, to_le_bytes_n9 => 9, _ => 16 };
@@ -670,7 +683,7 @@ const C08_WIDTHS_Q: &[usize] = &[0, 1, 2, 3, 4, 5, 6, 7, 8, 9, 10, 11, 12, 13, 1
 const C08_WIDTHS_T: &[usize] = &[0, 1, 2, 3, 4, 5, 6, 7, 8, 9, 10, 11, 12, 13, 14, 15, 16, 17, 24, 25, 31, 32, 33, 40, 60, 63, 64, 65, 66, 72, 120, 121, 127, 128, 129, 136, 191, 192, 193, 200, 250, 255, 256, 257, 320, 384, 511, 512, 513, 1024];
 const ENC: &[Op] = &[
     Op::as_le_slice, Op::as_le_bytes, Op::as_le_bytes_trimmed, Op::to_le_bytes, Op::to_be_bytes, Op::to_le_bytes_vec, Op::to_be_bytes_vec,
-    Op::to_le_bytes_trimmed_vec, Op::to_be_bytes_trimmed_vec,
+    Op::to_le_bytes_trimmed_vec, Op::to_be_bytes_trimmed_vec, Op::bytes_at_alignments,
 ];
 const COPY: &[Op] = &[Op::copy_le_bytes_to, Op::copy_be_bytes_to, Op::checked_copy_le_bytes_to, Op::checked_copy_be_bytes_to];
 const DEC: &[Op] = &[Op::from_be_slice, Op::from_le_slice, Op::try_from_be_slice, Op::try_from_le_slice];
